@@ -450,7 +450,7 @@ def run_replay(path):
     try:
         p = subprocess.run([REPLAY_PY, os.path.join(VERIF, "replay",
                                                     "run.py"), path],
-                           capture_output=True, text=True, timeout=600)
+                           capture_output=True, text=True, timeout=400)
         out = p.stdout.strip().splitlines()
         res = {"exit": p.returncode, "stdout": out[-30:],
                "stderr": p.stderr.strip().splitlines()[-15:]}
